@@ -197,21 +197,24 @@ def search_equivalence(chk: Check, site: driver.Site, rng, ctx: str) -> None:
     for sel, marker in targets:
         for q in queries:
             seen = {}
-            for view in ("gopher", "gophers", "gopherp+", "http", "https", "wap", "gemini", "spartan"):
+            for view in ("gopher", "gophers", "gopherp+", "http", "https", "wap", "gemini", "gemini:minimal-escaping", "spartan"):
+                minimal = view.endswith(":minimal-escaping")
+                label, view = view, view.split(":")[0]
                 if reqs.VIEWS[view][0] == "gopher" and (q == b"!" or q[:1] in (b"+", b"$")):
                     # 'selector<TAB>+...' is by its documented shape a Gopher+ request, not a search
                     continue
-                req, tls = reqs.render(view, sel, q)
+                req, tls = reqs.render(view, sel, q, minimal_query=minimal)
                 resp = site.request(req, tls=tls)
-                seen[view] = extract_echo(view, resp, marker)
+                seen[label] = extract_echo(view, resp, marker)
+                view = label
                 if seen[view] is None:
-                    chk.witness("C06/search-target-failed:%s" % reqs.VIEWS[view][0],
+                    chk.witness("C06/search-target-failed:%s" % reqs.VIEWS[view.split(":")[0]][0],
                                 {"view": view, "selector": sel, "query": q, "reply_head": resp.data[:160], "log": resp.log[:3]})
             if None in seen.values():
                 continue
             bad = {v: e for v, e in seen.items() if e != q}
             if bad:
-                fams = sorted({reqs.VIEWS[v][0] for v in bad})
+                fams = sorted({reqs.VIEWS[v.split(":")[0]][0] for v in bad})
                 cls = "non-utf8" if _nonutf8(q) else "ascii-or-utf8"
                 chk.witness("C06/search-string-altered:%s:%s" % ("+".join(fams), cls),
                             {"selector": sel, "query": q, "received_by_handler": bad})
@@ -243,7 +246,7 @@ def main() -> int:
         with Scratch("c06") as sc:
             for i in range(nsites):
                 rng = chk.subrng("site", i)
-                model = sites.gen_site(rng, sc.path, nfiles=12)
+                model = sites.gen_site(rng, sc.path, nfiles=12, gm_style=sites.GM_STYLES[i % 4])
                 if i % 2 == 0:
                     c05.extra_names(rng, model)
                 root = sc.sub("root%d" % i)
